@@ -52,6 +52,17 @@ def c01(ctx):
     results = ctx.validate_traces("TraceApi.tla", "TraceApi.cfg", sorted(glob.glob(os.path.join(tdir, "*.ndjson"))))
     violations = [v for v in rep["violations"] + crep["violations"] if v["property"] == prop]
     violations += _generic_trace_violations(results, prop, lambda rec: "sample=%s cut=%s panic=%s" % (rec.get("sample"), rec.get("n"), rec.get("panic")))
+    # termination / no crash on huge nested inputs examined in full (child processes, 32 MiB stack)
+    from .jsonfam import run_bombs
+    bcases = [(sh, 3000000, closed, lim, entry) for sh in ("arr", "obj") for closed in (False, True)
+              for (lim, entry) in ((0, "Detect"), (0, "DetectReader"), (4000000, "Detect"))]
+    brecs = run_bombs(ctx, bcases, core.NCPU)
+    for br in brecs:
+        if not br["returned"]:
+            v = dict(property=prop, kind="crash-on-nested-input", limit=br["limit"], input_text="shape=%s units=%d closed=%s entry=%s" % (br["shape"], br["n"], br["closed"], br["entry"]),
+                     detail="the call did not return: %s" % br.get("died", ""))
+            v["key"] = "C01|bomb|%s|%s|%s|%s" % (br["shape"], br["closed"], br["entry"], br["limit"])
+            violations.append(v)
     cov = dict(
         evaluations=rep["evaluations"] + crep["evaluations"],
         distinct_nontrivial=crep["distinct_nontrivial"],
@@ -59,6 +70,7 @@ def c01(ctx):
         exhaustive=False,
         drift=dict(count=rep["drift"], samples=rep.get("drift_samples", [])[:3]),
         direct_detector_calls=crep["extra"]["direct_detector_calls"],
+        nested_inputs_in_child_processes=len(brecs),
         samples=rep["samples"][:4] + crep["samples"][:1],
     )
     return core.finish(ctx, violations, cov, ["Go bounds checks and recover() observe out-of-range accesses; slices have exact capacity", "linux/amd64 only (64-bit int)", "termination of the JSON scanner on huge inputs is exercised by C16"])
@@ -150,6 +162,16 @@ def c19(ctx):
     ctx.vdrive(["zipvec", "-in", r["out"], "-out", rp, "-seed", ctx.seed], timeout=7000)
     os.remove(r["out"])
     rep = ctx.report(rp)
+    # OOXML packages of 6-7 entries with the marker part late (exhaustive over a focused name menu)
+    fz = ctx.tlc_expect_ok("MC_Zip.tla", "MC_Zip_focus.cfg", timeout=7000, xmx="30g", tag="MC_Zip_focus")
+    rpf = os.path.join(ctx.scratch, "zipfocus.json")
+    ctx.vdrive(["zipvec", "-in", fz["out"], "-out", rpf, "-seed", ctx.seed + 3], timeout=7000)
+    os.remove(fz["out"])
+    frep = ctx.report(rpf)
+    rep["violations"] += frep["violations"]
+    rep["evaluations"] += frep["evaluations"]
+    rep["distinct_nontrivial"] += frep["distinct_nontrivial"]
+    rep["drift"] += frep["drift"]
     # longer archives by simulation (the "first six entries" boundary)
     srep = None
     for me in (6, 7, 8):
